@@ -121,6 +121,9 @@ impl Filter for SortFilter {
 
         let mut sorted: Vec<Value> = input.iter().map(|v| v.to_value()).collect();
         if let Some(property) = &args.property {
+            if parse_variable(property).is_err() {
+                return Err(invalid_input("Property must be a variable path"));
+            }
             // Using unwrap is ok since all of the elements are objects
             sorted.sort_by(|a, b| {
                 nil_safe_compare(
